@@ -67,6 +67,7 @@ def run_case(wd, case, extra_args=(), binary=None, timeout=60):
         R.recs = dumps.parse_out(op)
     tp = prefix + ".0.tok"
     R.tok = dumps.parse_chunks(tp)[2] if os.path.exists(tp) else None
+    R.lops = dumps.parse_lops(prefix + ".0.lops")
     return R
 
 
